@@ -35,7 +35,7 @@ Print Assumptions C14_reset_restores.
    hypotheses are C17's canonicity (C17_root_canonical), for the storage tries and the account trie *)
 Theorem C14_hash_canonical :
   forall (hash leaf : Type) (store_root : smap -> hash)
-         (acct_leaf : Z -> bool -> option bytes -> N -> option hash -> leaf) (world_root : amap leaf -> hash),
+         (acct_leaf : Z -> bool -> option bytes -> N -> list deposit -> option hash -> leaf) (world_root : amap leaf -> hash),
   (forall m1 m2 : smap, (forall k, am_get m1 k = am_get m2 k) -> store_root m1 = store_root m2) ->
   (forall l1 l2 : amap leaf, (forall a, am_get l1 a = am_get l2 a) -> world_root l1 = world_root l2) ->
   forall h1 h2,
@@ -49,7 +49,7 @@ Print Assumptions C14_hash_canonical.
 (* the same for any two snapshots taken anywhere in any two histories *)
 Theorem C14_hash_canonical_snapshots :
   forall (hash leaf : Type) (store_root : smap -> hash)
-         (acct_leaf : Z -> bool -> option bytes -> N -> option hash -> leaf) (world_root : amap leaf -> hash),
+         (acct_leaf : Z -> bool -> option bytes -> N -> list deposit -> option hash -> leaf) (world_root : amap leaf -> hash),
   (forall m1 m2 : smap, (forall k, am_get m1 k = am_get m2 k) -> store_root m1 = store_root m2) ->
   (forall l1 l2 : amap leaf, (forall a, am_get l1 a = am_get l2 a) -> world_root l1 = world_root l2) ->
   forall h1 h2 i j t1 t2,
@@ -63,7 +63,7 @@ Print Assumptions C14_hash_canonical_snapshots.
 (* the order in which flushAccountCacheInLock walks the (Go) map of cached accounts is immaterial *)
 Theorem C14_flush_order_irrelevant :
   forall (hash leaf : Type) (store_root : smap -> hash)
-         (acct_leaf : Z -> bool -> option bytes -> N -> option hash -> leaf) (world_root : amap leaf -> hash),
+         (acct_leaf : Z -> bool -> option bytes -> N -> list deposit -> option hash -> leaf) (world_root : amap leaf -> hash),
   (forall m1 m2 : smap, (forall k, am_get m1 k = am_get m2 k) -> store_root m1 = store_root m2) ->
   (forall l1 l2 : amap leaf, (forall a, am_get l1 a = am_get l2 a) -> world_root l1 = world_root l2) ->
   forall h t c c',
